@@ -47,12 +47,12 @@ package cache
 // Two requests get the same key exactly when they agree in scheme, method, lower-cased
 // host, normalised path and raw query.
 // (also C01: the key is the coalescing key - two resources under one key get one body)
-//@ props C02 C16 C01
+//@ props C02 C16 C01 C10
 //@ func MakeFromRequest
 //@   nopanic
 //@   pure
 //@   requires r != nil && r.URL != nil
-//@   ensures [C02,C01] sid(result.Hex) == specKeyHex(r.TLS != nil ? sid("https") : sid("http"), sid(r.Method), sid(r.Host), escpath(sid(r.URL.Path), sid(r.URL.RawPath)), sid(r.URL.RawQuery))
+//@   ensures [C02,C01,C10] sid(result.Hex) == specKeyHex(r.TLS != nil ? sid("https") : sid("http"), sid(r.Method), sid(r.Host), escpath(sid(r.URL.Path), sid(r.URL.RawPath)), sid(r.URL.RawQuery))
 
 // L1: equal keys only for equal components (BLAKE2b collision resistance assumed).
 //@ props C02
@@ -336,7 +336,7 @@ package cache
 //@   ghost stable specFileInv(c) && c.janitor != nil && c.maxCacheSize.val != nil && c.byteSize.val.v < 4611686018427387904
 //@   requires specFileInv(c) && c.janitor != nil && c.maxCacheSize.val != nil && c.byteSize.val.v < 4611686018427387904
 //@   ensures [C12,C13] specFileInv(c)
-//@   ensures [C01] result1 == nil ==> in(c.entriesMetadata, key) && fscontent(specFilePath(c, keyid(key))) == old(readall(data)) && c.entriesMetadata[key].Size == old(readlen(data)) && c.entriesMetadata[key].Expires == expires && result0 != nil && result0.Metadata == c.entriesMetadata[key] && handlecontent(result0.Data) == old(readall(data))
+//@   ensures [C01,C09] result1 == nil ==> in(c.entriesMetadata, key) && fscontent(specFilePath(c, keyid(key))) == old(readall(data)) && c.entriesMetadata[key].Size == old(readlen(data)) && c.entriesMetadata[key].Expires == expires && result0 != nil && result0.Metadata == c.entriesMetadata[key] && handlecontent(result0.Data) == old(readall(data))
 //@   ensures [C01] forall h int :: old(allocated(h)) && old(handleinode(h)) != 0 ==> handleinode(h) == old(handleinode(h)) && icontent(handleinode(h)) == old(icontent(handleinode(h))) && isize(handleinode(h)) == old(isize(handleinode(h)))
 //@   ensures [C12] old(mbytes == c.byteSize.val.v) ==> mbytes == c.byteSize.val.v
 //@   ensures [C12] old(mentries == len(c.entriesMetadata)) ==> mentries == len(c.entriesMetadata)
@@ -446,6 +446,7 @@ package cache
 //@ func NewMemoryCache$2
 //@   nopanic
 //@   requires c != nil
+//@   ensures [C19] sysMem.Total < 1125899906842624 && newPercent >= 0 && newPercent <= 100 ==> c.memoryCap == (sysMem.Total * newPercent) / 100      // every budget verify() accepts, 0 included
 
 //@ props C19 C16 C12
 //@ func NewMemoryCache$1
